@@ -32,9 +32,13 @@ CONTAINERS = ["np", "list", "pd"]
 
 
 # ------------------------------------------------------------------ pass-through scorers
-def scorer(method):
-    """A fitted-on-demand estimator whose soft output is column 0 of X (predict_proba: columns (1-s, s))."""
+def scorer(method, out_dtype=None):
+    """A fitted-on-demand estimator whose soft output is column 0 of X (predict_proba: columns (1-s, s)).  out_dtype: the numpy dtype in which
+    predict / decision_function hand the (integer-valued) scores back, e.g. 'uint8' as a classifier trained on uint8 labels does."""
     from sklearn.base import BaseEstimator
+
+    def cast(v):
+        return v if out_dtype is None else v.astype(out_dtype)
 
     class _Base(BaseEstimator):
         def fit(self, X, y, **kw):
@@ -53,11 +57,11 @@ def scorer(method):
 
     class Decision(_Base):
         def decision_function(self, X):
-            return self._s(X)
+            return cast(self._s(X))
 
     class Predict(_Base):
         def predict(self, X):
-            return self._s(X)
+            return cast(self._s(X))
     return {"predict_proba": Proba, "decision_function": Decision, "predict": Predict}[method]()
 
 
@@ -103,6 +107,28 @@ def datasets_seeded(rng, count, max_groups=5, max_rows=14):
     return out
 
 
+SCORE_DTYPES = ("uint8", "uint16", "int8", "int32", "float32")
+
+
+def integer_score_cases(rng, count, per_dataset, n_configs, max_groups=4, max_rows=12):
+    """data sets whose scores are the integer levels 0..3 (incl. anti-ranked groups) handed back by predict / decision_function in a narrow or unsigned numpy
+    dtype: the fitted rule must not depend on the container dtype of the scores"""
+    out = []
+    for _ in range(count):
+        G = int(rng.integers(2, max_groups + 1))
+        n = int(rng.integers(2 * G, max(2 * G, max_rows) + 1))
+        gs = [g for g in range(G) for _ in (0, 1)] + [int(x) for x in rng.integers(0, G, n - 2 * G)]
+        ys = [y for _ in range(G) for y in (0, 1)] + [int(x) for x in rng.integers(0, 2, n - 2 * G)]
+        anti = set(int(g) for g in rng.integers(0, G, 1)) if rng.random() < 0.5 else set()          # groups whose scores rank the negatives first
+        sc = [float(int(np.clip((3 * (y if g not in anti else 1 - y)) + int(rng.integers(-2, 3)), 0, 3))) for g, y in zip(gs, ys)]
+        rows = tuple(zip(gs, ys, sc))
+        for ci in rng.choice(n_configs, size=per_dataset, replace=False):
+            enc = (("predict", "decision_function")[int(rng.integers(0, 2))], int(rng.integers(0, len(SF_ENC))), CONTAINERS[int(rng.integers(0, len(CONTAINERS)))],
+                   int(rng.integers(0, 1 << 30)), False, SCORE_DTYPES[int(rng.integers(0, len(SCORE_DTYPES)))])
+            out.append((rows, int(ci), enc))
+    return out
+
+
 def random_enc(rng, scores_in_unit=True):
     m = METHODS[int(rng.integers(0, len(METHODS)))]
     return (m, int(rng.integers(0, len(SF_ENC))), CONTAINERS[int(rng.integers(0, len(CONTAINERS)))], int(rng.integers(0, 1 << 30)),
@@ -118,7 +144,7 @@ def with_scores(rows, levels, map_id):
 def materialise(rows, enc):
     """rows (g, y, score) + enc -> X, y, sf (in the requested containers, rows permuted) and the plain lists (groups, labels, scores)"""
     import pandas as pd
-    method, sfe, container, perm_seed, junk = enc
+    method, sfe, container, perm_seed, junk = enc[:5]
     order = np.random.default_rng(perm_seed).permutation(len(rows))
     rows = [rows[i] for i in order]
     gl = [SF_ENC[sfe][g] for g, _, _ in rows]
@@ -148,7 +174,7 @@ def make_optimizer(cfg, enc):
     from fairlearn.postprocessing import ThresholdOptimizer
     constraint, objective, flip, grid = cfg
     method = enc[0]
-    est = scorer("predict_proba" if method == "auto" else method)        # 'auto' resolves to predict_proba when it exists
+    est = scorer("predict_proba" if method == "auto" else method, out_dtype=enc[5] if len(enc) > 5 else None)        # 'auto' resolves to predict_proba when it exists
     prefit = (enc[3] % 2 == 0)
     if prefit:
         est.fit(None, None)
